@@ -2,6 +2,7 @@
 from __future__ import annotations
 
 import json
+import time
 from typing import List
 
 from harness.lib.core import VERIF, Ctx, lean_lock, run_driver, shrink_ops
@@ -35,7 +36,7 @@ MANIFEST = {
     "technique": "Lean 4 theorems over an executable client/server/backup model; tied by regenerated tables and a differential rig",
     "design_ref": "5/C17",
 }
-MODULES = ["PrimaiteModel.Props.C17", "PrimaiteModel.Lemmas.DatabaseReach"]
+MODULES = ["PrimaiteModel.Props.C17", "PrimaiteModel.Props.C17Run", "PrimaiteModel.Props.C17Recv", "PrimaiteModel.Lemmas.DatabaseReach"]
 EXE = "drv_c17"
 
 
@@ -120,6 +121,16 @@ def run(ctx: Ctx):
         case, impl = rig.gen_and_run(rng, max_ops=ctx.scale(40, 70))
         cases.append((f"gen:{k}", case))
         pre[f"gen:{k}"] = impl
+    # directed families (scripts built from the same vocabulary, every choice from ctx.rng)
+    rng2 = ctx.rng.fork("directed")
+    for k in range(ctx.scale(40, 400)):
+        case, impl = rig.gen_boundary_and_run(rng2)
+        cases.append((f"boundary:{k}", case))
+        pre[f"boundary:{k}"] = impl
+    for k in range(ctx.scale(40, 400)):
+        case, impl = rig.gen_cycles_and_run(rng2)
+        cases.append((f"cycles:{k}", case))
+        pre[f"cycles:{k}"] = impl
     impl_all, lines_all, bounds = [], [], []
     for name, case in cases:
         impl = pre[name] if name in pre else rig.run_impl(case)
@@ -129,6 +140,8 @@ def run(ctx: Ctx):
         impl_all.append(impl)
     model_all = run_driver(EXE, lines_all)
     agree = 0
+    shrunk_per_sig: dict = {}
+    t_shrink0 = [time.time()]
     for (name, case), impl, (st, ln) in zip(cases, impl_all, bounds):
         model = model_all[st:st + ln]
         lines = lines_all[st:st + ln]
@@ -157,6 +170,16 @@ def run(ctx: Ctx):
                 ctx.count(f"saturated:{w[0]}:" + "".join(w[1:]))
             if w[0] == "adm":
                 ctx.count("op:adm:" + ":".join(w[1:3] if w[1] == "ftpc" else w[1:2]))
+            if w[0] in ("dl", "co", "rj"):
+                ctx.count(f"op:{w[0]}:{w[-1] if w[0] != 'dl' else w[1]}")
+            if w[0] == "svcin":
+                ctx.count("result:svcin:" + ("raised" if "rej=R" in m else "refused" if "rej=1" in m else "replaced") + (":configured" if len(w) > 1 else ":bare"))
+            if w[0] == "restore" and prev:
+                ctx.count("restore:leftover-before=" + prev.split()[0][4:].split(",")[4] + ":" + m.split()[0])
+            if w[0] == "connect" and prev:
+                srvp = prev.split()[0][4:]
+                nconn = 0 if "[]" in srvp else srvp[srvp.index("[") + 1:srvp.index("]")].count("@")
+                ctx.count("connect:table=" + ("full" if nconn >= case["max"] else "one-below" if nconn + 1 == case["max"] else "room") + ":" + m.split()[2])
             if w[0] == "dm":
                 ctx.count(f"dm:scan={w[3]},attack={w[4]},request={w[5]}")
             if " | " in m:
@@ -171,7 +194,7 @@ def run(ctx: Ctx):
                         ctx.count(f"status:{w[0]}:{s}")
                 if tok == "rej=1":
                     ctx.count("rejected:" + w[0])
-            if w[0] in ("backup", "restore", "connect", "hq", "nq", "rq", "ex", "rs", "nc"):
+            if w[0] in ("backup", "restore", "connect", "hq", "nq", "rq", "ex", "rs", "nc", "dm", "dl", "co"):
                 ctx.count(f"result:{w[0]}:{head.split()[0]}")
         if impl == model:
             agree += 1
@@ -179,14 +202,25 @@ def run(ctx: Ctx):
                 ctx.sample({"case": name, "lines": lines[1:10], "answers": [m.split(' | ')[0] for m in model[1:10]]}, cap=3)
             continue
         i = next((j for j, (a, b) in enumerate(zip(impl, model)) if a != b), min(len(impl), len(model)))
+        # shrinking re-runs the implementation and the driver for every candidate: on a broken tree hundreds of traces
+        # disagree, so it is bounded - two traces per signature, and a wall-clock budget for all of them together
+        sig0 = json.dumps(_sig(lines, i, impl, model), sort_keys=True)
+        shrunk_per_sig[sig0] = shrunk_per_sig.get(sig0, 0) + 1
+        small, impl2, model2, i2, lines2 = case, impl, model, i, lines
+        if shrunk_per_sig[sig0] <= 2 and time.time() - t_shrink0[0] < ctx.scale(25, 240):
+            t1 = time.time()
 
-        def fails(ops, case=case):
-            ok, *_ = _diff_case(dict(case, ops=ops))
-            return not ok
-        small = dict(case, ops=shrink_ops(case["ops"], fails))
-        ok, impl2, model2, i2, lines2 = _diff_case(small)
-        if ok:
-            small, impl2, model2, i2, lines2 = case, impl, model, i, lines
+            def fails(ops, case=case):
+                ok, *_ = _diff_case(dict(case, ops=[list(o) for o in ops]))
+                return not ok
+            cand = dict(case, ops=shrink_ops(case["ops"], fails, budget=ctx.scale(60, 200)))
+            ok, impl3, model3, i3, lines3 = _diff_case(cand)
+            if not ok:
+                small, impl2, model2, i2, lines2 = cand, impl3, model3, i3, lines3
+            ctx.count("shrunk-traces")
+            ctx.cov["shrink_s"] = round(ctx.cov.get("shrink_s", 0) + time.time() - t1, 1)
+        else:
+            ctx.count("unshrunk-disagreeing-traces")
         ctx.violation(_sig(lines2, i2, impl2, model2),
                       f"database answer/state differs from the proved model at op {i2} ({lines2[i2] if i2 < len(lines2) else '?'}): "
                       f"impl={impl2[i2] if i2 < len(impl2) else None!r} model={model2[i2] if i2 < len(model2) else None!r}",
